@@ -22,6 +22,10 @@ pub mod utils;
 #[cfg(any(test, feature = "test-internals"))]
 pub mod test_helpers;
 
+// Verification hooks: field accessors for external verification harnesses.
+#[cfg(feature = "verif-hooks")]
+pub mod verif_hooks;
+
 // Re-export commonly used items
 pub use config_snapshot::ConfigSnapshot;
 pub use connection::SrtlaConnection;
